@@ -99,3 +99,42 @@ impl ApplicationSpace {
 //@ splice-stmts quic/s2n-quic-transport/src/space/application.rs "ApplicationSpace<Config>" validate_and_decrypt_packet "from=let decrypted = self.key_set.decrypt_packet(" "to=decrypted.map(" dropstmt=publisher.on_key_update@@publisher.on_packet_dropped
     }
 }
+
+// ---- HandshakeSpace / InitialSpace::validate_and_decrypt_packet: the delivery rule after decryption ------------------
+// statements from the duplicate gate to the end of the function (the `packet.decrypt(&self.key).inspect_err(..)` call
+// before them carries an event-publishing closure and is not extracted: `decrypted` is the wrapper's parameter)
+pub struct CleartextX { pub packet_number: PacketNumber, pub tag: u64 }
+pub struct HandshakeSpace { pub processed_packet_numbers: WindowX }
+impl HandshakeSpace {
+    #[verifier::external_body]
+    fn is_duplicate(&self, packet_number: PacketNumber, path_id: PathId, path: &PathX, publisher: &mut PubX) -> (r: bool)
+        ensures r == !fresh(self.processed_packet_numbers, packet_number),   // C06/X/HandshakeSpaceX::is_duplicate
+    { unimplemented!() }
+    fn validate_and_decrypt_packet_delivery(&self, decrypted: Result<CleartextX, ProcessingError>, packet_number: PacketNumber, path_id: PathId, path: &PathX, publisher: &mut PubX) -> (ret: Result<CleartextX, ProcessingError>)
+        ensures
+            ret is Ok <==> decrypted is Ok && fresh(self.processed_packet_numbers, packet_number),
+            ret is Ok ==> ret->Ok_0 == decrypted->Ok_0,
+            !fresh(self.processed_packet_numbers, packet_number) ==> ret == Err::<CleartextX, ProcessingError>(ProcessingError::Other),
+            fresh(self.processed_packet_numbers, packet_number) && decrypted is Err ==> ret == decrypted,
+    {
+//@ splice-stmts quic/s2n-quic-transport/src/space/handshake.rs "HandshakeSpace<Config>" validate_and_decrypt_packet "from=if self.is_duplicate(" "to=Ok(decrypted)"
+    }
+}
+pub struct InitialSpace { pub processed_packet_numbers: WindowX }
+impl InitialSpace {
+    #[verifier::external_body]
+    fn is_duplicate(&self, packet_number: PacketNumber, path_id: PathId, path: &PathX, publisher: &mut PubX) -> (r: bool)
+        ensures r == !fresh(self.processed_packet_numbers, packet_number),   // C06/X/InitialSpaceX::is_duplicate
+    { unimplemented!() }
+    fn initial_validate_and_decrypt_packet_delivery(&self, decrypted: Result<CleartextX, ProcessingError>, packet_number: PacketNumber, path_id: PathId, path: &PathX, publisher: &mut PubX) -> (ret: Result<CleartextX, ProcessingError>)
+        ensures
+            ret is Ok <==> decrypted is Ok && fresh(self.processed_packet_numbers, packet_number),
+            ret is Ok ==> ret->Ok_0 == decrypted->Ok_0,
+            !fresh(self.processed_packet_numbers, packet_number) ==> ret == Err::<CleartextX, ProcessingError>(ProcessingError::Other),
+            fresh(self.processed_packet_numbers, packet_number) && decrypted is Err ==> ret == decrypted,
+    {
+//@ splice-stmts quic/s2n-quic-transport/src/space/initial.rs "InitialSpace<Config>" validate_and_decrypt_packet "from=if self.is_duplicate(" "to=let decrypted = decrypted"
+        // (the client-side retry-token check that follows in the real function is not extracted)
+        Ok(decrypted)
+    }
+}
